@@ -33,7 +33,7 @@ for m in pkgutil.walk_packages(nuspacesim.__path__, 'nuspacesim.'):
 """,
     "target_run": """
 from nssmc import sim
-sim.run(sim.make_config(mode='Target', spectrum='power', cloud='mono', n=400, altitude=33.0), seed=3)
+sim.run(sim.make_config(mode='Target', spectrum='power', cloud='mono', n=400, altitude=33.0, extra={'simulation': {'cloud_model': {'id': 'monocloud', 'altitude': 11.5}}}), seed=3)  # (a uniform cloud deck at ANOTHER altitude than the probe's)
 """,
     "diffuse_other": """
 from nssmc import sim
